@@ -435,7 +435,8 @@ def programs(tier, seed):
                                           ext=True)
                     idx += 1
     for p in two_clock_programs() + spawn_programs() + rand_programs() + \
-            main_programs() + stop_programs() + multiwait_programs():
+            main_programs() + stop_programs() + multiwait_programs() + \
+            moved_programs():
         yield idx, p
         idx += 1
 
@@ -575,6 +576,72 @@ def multiwait_programs():
                                 ['play', w, c, 0] for w in names[1::2] +
                                 names[0::2]] + [['play', 'A', c, 0]]}
                         out.append(prog)
+    return out
+
+
+def moved_programs():
+    """2 or 3 routines of one TempoClock are due at one beat; the first one
+    is scheduled AGAIN for that beat while it is pending (pause / resume,
+    pause / play, stop / reset / play, clock.sched), which moves it behind
+    the others; then, while all are pending, the tempo or the beats of the
+    clock change (NRT re-times the pending tasks; RT leaves its queue in
+    beats alone).  The routines keep meeting at common beats, where each
+    logs, draws from the generator they share (children of one seeded
+    routine) and sends a bundle for one time tag: run order, order of the
+    equal-time bundles and the draws must be the same in both modes."""
+    out = []
+    clocks = {'s': ['system'], 't2': ['tempo', 2.0]}
+
+    def body(i):
+        return [['yield', 1.0], ['log'], ['rand', 'rrand'],
+                ['send', 0.25, 50 + i], ['yield', 1.0], ['log'],
+                ['rand', 'rrand'], ['send', 0.25, 60 + i], ['yield', 1.0],
+                ['rand', 'choice']]
+    routes = [
+        [['pause', 'X'], ['resume', 'X']],              # default quant: beat 1
+        [['pause', 'X'], ['play', 'X', 't2', 1]],
+        [['stop', 'X'], ['reset', 'X'], ['play', 'X', 't2', 1]],
+        [['sched', 't2', 0.5, 'X']]]
+    changes = [[['tempo', 't2', 4.0]], [['tempo', 't2', 0.5]],
+               [['etempo', 't2', 4.0]], [['beats', 't2', 0.25]]]
+    for n in (2, 3):
+        names = ['X', 'Y', 'Z'][:n]
+        for route in routes:
+            for change in changes:
+                for when in ('same', 'later', 'other'):
+                    a = [['seed', 7], ['rand', 'rrand']] + \
+                        [['spawn', w, 't2'] for w in names] + \
+                        [['yield', 0.5]] + route
+                    if when == 'same':
+                        a += change
+                    elif when == 'later':
+                        a += [['yield', 0.25]] + change
+                    a += [['yield', 2.0], ['rand', 'rrand']]
+                    r = {'A': a, 'B': [['seed', 9]]}
+                    main = [['play', 'A', 't2', 0]]
+                    if when == 'other':
+                        r['K'] = [['seed', 13], ['yield', 0.75]] + change + \
+                            [['log']]
+                        main = [['play', 'K', 't2', 0]] + main
+                    out.append({
+                        'clocks': clocks, 'routines': r,
+                        'spawned': {w: body(i)
+                                    for i, w in enumerate(names)},
+                        'funcs': {}, 'conds': ['c0'], 'moved': True,
+                        'actors': {'main': main}, 'horizon': 12.0})
+        # the main thread does all of it before anything runs
+        for route in ([['pause', 'X'], ['resume', 'X', 't2', 0]],
+                      [['stop', 'X'], ['reset', 'X'],
+                       ['play', 'X', 't2', 0]]):
+            for change in changes:
+                r = {w: [['seed', 11]] + [['log'], ['send', 0.25, 40 + i]] +
+                     body(i) for i, w in enumerate(names)}
+                out.append({
+                    'clocks': clocks, 'routines': r, 'funcs': {},
+                    'conds': ['c0'], 'moved': True,
+                    'actors': {'main': [['play', w, 't2', 0]
+                                        for w in names] + route + change},
+                    'horizon': 12.0})
     return out
 
 
@@ -1259,11 +1326,11 @@ def main(ctx):
     # random stream independence
     rnd = [(i, p) for i, p in progs if p.get('spawn') or p.get('randfam')] + \
           [(i, p) for i, p in progs
-           if len(p['routines']['A']) < 8 and not p.get('spawn')
+           if len(p['routines'].get('A', ())) < 8 and not p.get('spawn')
            and not p.get('randfam') and not p.get('inherit')
-           and not p.get('multiwait')
-           and any(st[0] == 'rand' for st in p['routines']['A'])
-           and any(st[0] == 'rand' for st in p['routines']['B'])]
+           and not p.get('multiwait') and not p.get('moved')
+           and any(st[0] == 'rand' for st in p['routines'].get('A', ()))
+           and any(st[0] == 'rand' for st in p['routines'].get('B', ()))]
     progenum.run(ctx, MODNAME, 'work_indep',
                  [{'progs': b} for b in chunked(rnd, 200)], mode='nrt',
                  bound='random independence')
